@@ -34,6 +34,7 @@ NAMINGS = {"plain": ("a.txt", "other.txt"), "blank": ("a b.txt", "o ther.txt"), 
             "many-in-dir": ("pkg/mod_00.py", "pkg/sub/other.txt")}
 # how the configuration spells the pattern file (the file itself has the canonical name)
 CONFIG_SPELLING = {"dot-slash": "./a.txt", "subdir-dot": "sub/../a.txt", "many-in-dir": "pkg/mod_*.py"}
+GONE = ("deleted-staged", "deleted-unstaged", "renamed")
 SIBLINGS = {"many-in-dir": [f"pkg/mod_{i:02d}.py" for i in range(1, 13)]}
 
 
@@ -47,6 +48,8 @@ def explore(tier, seed):
     for naming in (NAMINGS if tier == "thorough" else ("plain",)):
         for fmt in ("bumpver.toml", "setup.cfg"):
             for ps in STATUSES:
+                if naming == "many-in-dir" and ps in GONE:
+                    continue  # (a file that no longer exists under a name the glob matches is not a configured file any more)
                 chunks.append((naming, fmt, ps, STATUSES))
     if tier != "thorough":
         for ps in STATUSES:
@@ -54,7 +57,7 @@ def explore(tier, seed):
             chunks.append(("non-ascii", "bumpver.toml", ps, ("clean",)))
             chunks.append(("dot-slash", "bumpver.toml", ps, ("clean", "untracked")))
             chunks.append(("subdir-dot", "setup.cfg", ps, ("clean",)))
-            if ps not in ("deleted-staged", "deleted-unstaged", "renamed"):
+            if ps not in GONE:
                 # (a file that no longer exists under a name the glob matches is not a configured file any more)
                 chunks.append(("many-in-dir", "bumpver.toml", ps, ("clean", "modified-unstaged", "untracked")))
     return pool.run_chunks(run_chunk, chunks)
